@@ -495,6 +495,43 @@ def run(ctx):
     from ..tyast import build
     drive.for_each_case(ctx, 'twins', max(40, ctx.budget // 5), body_twins, gen=lambda c, r: Ty('int'))
 
+    # documents read with from_yaml_all are a sequence of T: a failing stream reports the tree a List[T] reports for the same documents
+    # (a product node keyed by the positions of ALL failing documents, each child the document's own tree)
+    def body_yaml_all(i, rng, ty, T):
+        import io as _io
+        import yaml as _yaml
+        from ..entrypoints import jsonable, _only_plain_carriers
+        docs = []
+        for _ in range(rng.randint(1, 4)):
+            v = genval.member(ty, rng)
+            if rng.random() < 0.6:
+                v = genval.mutate(v, rng, n=rng.choice((1, 2)))
+            if _only_plain_carriers(v) and jsonable(v):
+                docs.append(v)
+        if not docs:
+            return
+        text = _yaml.safe_dump_all(docs, sort_keys=False, explicit_start=True)
+        if list(_yaml.safe_load_all(text)) != docs:
+            return
+        # (a SequenceConverter built directly: typing would misread a tuple / struct type LITERAL as the argument of List[...])
+        ref = observe(lambda: env.m_converters.SequenceConverter(list, T).convert(docs))
+        got = observe(env.m_io.from_yaml_all, _io.StringIO(text), T)
+        ctx.count('yaml_all_trees')
+        if ref.kind != got.kind:
+            ctx.violation('tree-mirrors-type', 'yaml_all', i, {'type': describe(ty), 'documents': short(docs, 300), 'from_data(docs, List[T])': ref.brief(),
+                                                               'from_yaml_all': got.brief()}, mech='from_yaml_all:verdict-differs-from-List[T]')
+            return
+        if ref.kind == 'converr':
+            ctx.count('trees_checked')
+            ok, why = tree_eq(ref.exc.tree, got.exc.tree)
+            if not ok:
+                ctx.violation('tree-mirrors-type', 'yaml_all', i, {'type': describe(ty), 'documents': short(docs, 300), 'why': why,
+                                                                   'tree_of_List[T]': short(ref.exc.tree, 300), 'tree_of_from_yaml_all': short(got.exc.tree, 300)},
+                              mech='from_yaml_all:tree-differs-from-List[T]')
+
+    import typing as t
+    drive.for_each_case(ctx, 'yaml_all', max(40, ctx.budget // 5), body_yaml_all)
+
 
     def body_dc(i, rng, ty, T):
         for j in range(4):
